@@ -188,6 +188,8 @@ func (f *FailoverOf[V]) Get(
 		return f.waitForValue(withoutSkipRead(ctx), key, keyLock)
 	}
 
+	staleFound := false
+
 	// Pushing expired value with short ttl to serve during update.
 	if v, freshEnough := f.freshEnough(err); freshEnough {
 		if err = f.refreshStale(ctx, key, v); err != nil {
@@ -197,6 +199,7 @@ func (f *FailoverOf[V]) Get(
 		}
 
 		val = v
+		staleFound = true
 	}
 
 	// Check if update failed recently.
@@ -221,8 +224,16 @@ func (f *FailoverOf[V]) Get(
 					"key", key)
 			}
 
-			if !f.config.FailHard && !errors.Is(err, ErrNotFound) {
-				return val, nil
+			if !f.config.FailHard {
+				if staleFound {
+					return val, nil
+				}
+
+				// Serving overly stale value (expired longer than MaxStaleness) if update failed.
+				var errExpired ErrWithExpiredItemOf[V]
+				if errors.As(err, &errExpired) {
+					return errExpired.Value(), nil
+				}
 			}
 		}
 
